@@ -36,7 +36,7 @@ func qosProfile() *hist.Profile {
 	p.MultiFilter = false
 	p.NoSelfTakeover = false
 	p.HowDisc = []string{"drop", "drop", "normal"}
-	p.TakeoverSafe = true
+	p.TakeoverSafe = false
 	return p
 }
 
@@ -152,6 +152,40 @@ func checkC11(c *vk.Ctx) {
 		}}
 	h3.run(c)
 	c.MinEvents["publish_denied"] = 200
+	// flow control across session resumption, outbound: subscribers keep their sessions, drop and come back announcing
+	// another Receive Maximum (often a smaller one) while acknowledgements are withheld
+	p4 := qosProfile()
+	p4.Name = "flow-resume-out"
+	p4.SlotIDs = []int{0, 1, 2}
+	p4.NoSelfTakeover = true
+	p4.Versions = []byte{5}
+	p4.RecvMax = []uint16{4, 1, 2, 1}
+	p4.CleanPct = 0
+	p4.Expiry = []uint32{300}
+	p4.HowDisc = []string{"drop", "normal"}
+	p4.W = map[string]int{"connect": 3, "subscribe": 4, "publish": 14, "hold": 4, "ping": 2, "ackone": 4, "disconnect": 3}
+	h4 := &histRun{Prop: "C11", Profile: p4, N: c.N(150, 4000), Label: 1104, Rules: []string{"C11/"}, Nontrivial: []string{"sessions_resumed"}}
+	h4.run(c)
+	// ... and inbound: publishers only, server Receive Maximum 1-2, QoS 2 publishes whose PUBREL is withheld across a
+	// drop and a resumed session, then retransmitted (DUP) and released: the retransmission is not a further publish
+	p5 := qosProfile()
+	p5.Name = "flow-resume-in"
+	p5.SlotIDs = []int{0, 1}
+	p5.NoSelfTakeover = true
+	p5.Versions = []byte{5, 5, 4}
+	p5.RecvMax = nil
+	p5.CleanPct = 0
+	p5.Expiry = []uint32{300}
+	p5.DupQ2Pct = 70
+	p5.PubQoS = []byte{2, 2, 1}
+	p5.HowDisc = []string{"drop"}
+	p5.W = map[string]int{"connect": 4, "publish": 10, "disconnect": 3, "retransmit": 6, "pubrel": 5, "ping": 1}
+	h5 := &histRun{Prop: "C11", Profile: p5, N: c.N(150, 4000), Label: 1105, Rules: []string{"C11/"}, Nontrivial: []string{"qos2_retransmissions"},
+		Mutate: func(r *vk.Rand, cfg *hist.Config, ops []hist.Op) []hist.Op {
+			cfg.ServerRecvMax = uint16(r.Range(1, 2))
+			return ops
+		}}
+	h5.run(c)
 }
 
 func checkC12(c *vk.Ctx) {
